@@ -52,7 +52,9 @@ def k_none_rule(prog: Program, rep, RID: str):
         after_scale0 = bool(scale0) and all(s.lineno < holder.lineno for s in scale0)
         from rules.semantic import enclosing_tests
         tests = [norm(t) for t, pol in enclosing_tests(f.node, holder) if pol]
-        guarded = any(t in ("self.k is None", "k is None") for t in tests)
+        # (`self.k = k if k is not None else W` is stored by the program model as `if k is not None: self.k = k else: self.k = W`)
+        neg_tests = [norm(t) for t, pol in enclosing_tests(f.node, holder) if not pol]
+        guarded = any(t in ("self.k is None", "k is None") for t in tests) or any(t in ("self.k is not None", "k is not None") for t in neg_tests)
         if ok and after_scale0 and guarded:
             rep.ok(RID, key, f"k defaults to the width with {why}; scale-0 edges already in the ignore set", f.loc(holder), sample={"call": norm(call)})
         else:
@@ -181,7 +183,17 @@ def check(prog: Program, rep):
             rep.ok("C08.R8", key, "the path length sums the lengths of the path's own edges", _ep.loc(_c))
     # with a weight superset several given weights can share an edge: the slack bound has to cover their sum
     _init = prog.own_method("kMinPathError", "__init__")
-    _w = [st for st in ast.walk(_init.node) if isinstance(st, ast.Assign) and any(norm(t) == "self.w_max" for t in st.targets) and "solution_weights_superset" in norm(st.value)]
+    # (a local that names the superset - `given_weights = self.solution_weights_superset or []` - is written out)
+    from rules.common import local_single_defs as _lsd8, substitute_locals as _sl8
+    import copy as _copy8
+    _al = {k_: v_ for k_, v_ in _lsd8(_init.node).items() if "solution_weights_superset" in norm(v_) and not any(isinstance(x_, ast.Call) for x_ in ast.walk(v_))}
+    _w = []
+    for st in ast.walk(_init.node):
+        if isinstance(st, ast.Assign) and any(norm(t) == "self.w_max" for t in st.targets):
+            st2 = _copy8.copy(st)
+            st2.value = _sl8(st.value, _al) if _al else st.value
+            if "solution_weights_superset" in norm(st2.value):
+                _w.append(st2)
     key = "kMinPathError.__init__:slack-bound-with-superset"
     if not _w:
         raise AnalysisError("kMinPathError.__init__: w_max is not related to the weight superset")
